@@ -27,7 +27,7 @@ import (
 
 func init() {
 	mon.RegisterCfg("C08", mon.Config{
-		Rule: "generated gtab.Info / gdef.Table / coverage / classdef values (gen/otl: every encodable lookup type and format, alphabets of 5 … 65536 glyphs, subtables of a few bytes … 58 KiB, lookup lists of 0 … 300 lookups and up to several 100 KiB with the largest lookup first / in the middle / last, totals swept +-8 bytes around the 16-bit offset limits, script lists over every script x language tag of the library's tables, feature lists up to the 16-bit limit) are encoded by the library, decoded again and compared (nil = empty); the emitted bytes are walked by the independent structural walker otlwalk (offsets inside the table, extents as implied by counts, ranges tile the table without gap or partial overlap, extension records consistent, coverage sorted with indices 0..n-1, no smaller alternative format); every subtable's declared size is compared with its emitted size (hook); coverage/classdef are additionally decoded by otlwalk and their sizes recomputed independently; a catalogue of unrepresentable structures must be refused with a panic or read back equal. distinct = distinct emitted tables (hash)",
+		Rule: "generated gtab.Info / gdef.Table / coverage / classdef values (gen/otl: every encodable lookup type and format, alphabets of 5 … 65536 glyphs, subtables of a few bytes … 58 KiB, lookup lists of 0 … 300 lookups and up to several 100 KiB with the largest lookup first / in the middle / last, totals swept +-8 bytes around the 16-bit offset limits, script lists over every script x language tag of the library's tables, feature lists up to the 16-bit limit) are encoded by the library, decoded again and compared (nil = empty); the emitted bytes are walked by the independent structural walker otlwalk (offsets inside the table, extents as implied by counts, ranges tile the table without gap or partial overlap, extension records consistent, coverage sorted with indices 0..n-1, no smaller alternative format); every subtable's declared size is compared with its emitted size (hook); coverage/classdef are additionally decoded by otlwalk and their sizes recomputed independently; a catalogue of unrepresentable structures must be refused with a panic or read back equal. distinct = distinct emitted tables (hash); stratum ximage-kern: a whole font is written whose kern feature consists of pair adjustment subtables of both formats (plus decoy lookups/features/scripts, lists beyond 64 KiB through extension records) and golang.org/x/image/font/sfnt - an independent reader of script list, feature list, lookup list, extension records, coverage and class definition tables - must find, for every sampled glyph pair, the kerning the structure holds",
 		Assumptions: []string{
 			"well-formed content = what the binary format can express (uniform nil-ness of value records per subtable position, one array entry per covered glyph, rule-set arrays not longer than the class count, mark classes below the class count, MarkFilteringSet 0 unless flagged, anchors (0,0) = absent); GPOS type 5 has no encoder and is excluded",
 			"value-record device offsets are opaque 16-bit fields for the library; otlwalk does not follow them",
@@ -1055,6 +1055,8 @@ func runC08(c *mon.Ctx) {
 		k.ClassN("tags:pairs-round-tripped", len(want))
 		k.Class("tags:script-complete")
 	})
+
+	c08ximageStratum(c)
 
 	// --- feature lists up to the 16-bit limit --------------------------------------
 	c.Stratum("features", c.N(40, 800), func(k *mon.Case) {
